@@ -159,6 +159,7 @@ PROPERTIES = {
         "tests": [
             {"test": "TestC12History", "quick": 400, "thorough": 160000},
             {"test": "TestC12Lab", "quick": 300, "thorough": 120000},
+            {"test": "TestC12FromGenesis", "quick": 400, "thorough": 160000},
         ],
     },
     "C15": {
@@ -256,6 +257,7 @@ PROPERTIES["C16"] = {
     "tests": [
         {"test": "TestC16Differential", "quick": 5000, "thorough": 2000000},
         {"test": "TestC16Unit", "quick": 30000, "thorough": 4000000},
+        {"test": "TestC16Adapter", "quick": 20000, "thorough": 4000000},
         {"test": "FuzzPacket", "kind": "fuzz", "pkg": "light", "fuzztime_s": 180, "tiers": ["thorough"]},
     ],
 }
